@@ -16,7 +16,7 @@ import signal
 import numpy as np
 
 from vmon import gen
-from vmon.core import Inconclusive, bit_equal
+from vmon.core import HarnessError, Inconclusive, bit_equal
 
 PROPERTY = 'C15'
 LEVEL = 'exploration'
@@ -46,7 +46,7 @@ SHARD_TIMEOUT = {'quick': 600, 'thorough': 2400}
 EXHAUSTIVE = {'quick': True, 'thorough': True}
 MIN_HITS = {
     'quick': {
-        'hit:held-batches': 3000, 'mon:concat-pcd': 3500, 'mon:concat-pfd': 3500, 'mon:full-pcd': 15000, 'mon:full-pfd': 15000, 'mon:bucket-pcd': 7000,
+        'hit:held-batches': 3000, 'hit:fresh-interpreter-stream': 100, 'shuffle:long-input': 10, 'fd-form:derived-subset': 300, 'mon:concat-pcd': 3500, 'mon:concat-pfd': 3500, 'mon:full-pcd': 15000, 'mon:full-pfd': 15000, 'mon:bucket-pcd': 7000,
         'mon:bucket-pfd': 7000, 'mon:repeat-padded': 6000, 'mon:reject': 400, 'reject:padded-preprocessor': 60,
         'reject:padded-features': 60, 'reject:bsb-preprocessor': 50, 'reject:bsb-features': 50,
         'mon:multiset-shuffle': 2500, 'mon:repro-shuffle': 2500, 'mon:order-shuffle': 400, 'mon:repeat-iter': 300,
@@ -195,6 +195,27 @@ ITER_KINDS = ['list', 'tuple', 'generator', 'iterator', 'repeatable-gen', 'repea
 
 
 # ----------------------------------------------------------------------------- padded batching
+def make_fd(fedjax, mapping, fns, form):
+  """The same logical dataset + batch-preprocessor chain, as a plain in-memory dataset or as a DERIVED subset view of it (subset
+  over all ids, chain appended with preprocess_batch(), optionally sliced over the full range): iteration order of every form is
+  sorted client-id order."""
+  from fedjax.core import client_datasets as cd
+  from fedjax.core import federated_data as fdm
+  if form == 'in-memory':
+    return fedjax.InMemoryFederatedData(mapping, preprocess_batch=cd.BatchPreprocessor(fns))
+  fd = fdm.SubsetFederatedData(fedjax.InMemoryFederatedData(mapping), list(mapping))
+  for f in fns:
+    fd = fd.preprocess_batch(f)
+  if form == 'derived-subset-sliced':
+    fd = fd.slice(None, None)
+  return fd
+
+
+FD_FORMS = ('in-memory', 'derived-subset', 'derived-subset-sliced')
+# seeded stream observations of the current fds case (compared with a fresh-interpreter replay under another PYTHONHASHSEED)
+FDS_TRACE = None
+
+
 def judge_padded(ctx, fam, batches, ref, total, b, k, wit):
   """fam: 'pcd' (client datasets) or 'pfd' (federated data) -> monitor families concat-*, full-*, bucket-*."""
   if total == 0:
@@ -367,10 +388,12 @@ def padded_point(ctx, fedjax, cd, fd_mod, rng, b, k, sizes):
       keys = list(mapping)
       rng.shuffle(keys)
       mapping = {kk: mapping[kk] for kk in keys}
-    witf = {**wit, 'client_ids': ids}
+    form = FD_FORMS[(len(sizes) + b + k + total) % 3]
+    witf = {**wit, 'client_ids': ids, 'dataset_form': form}
+    ctx.count('fd-form:' + form)
 
     def run_fd():
-      fd = fedjax.InMemoryFederatedData(mapping, preprocess_batch=pre)
+      fd = make_fd(fedjax, mapping, fns, form)
       return [list(hp_call(fedjax.padded_batch_federated_data, fd)) for _ in range(2)]
 
     r = ctx.call('padded_batch_federated_data', run_fd, witness=witf)
@@ -686,8 +709,12 @@ def fds_point(ctx, fedjax, cd, rng):
   wit = {'batch_size': b, 'sizes': sizes, 'client_ids': ids, 'client_buffer_size': cbuf, 'example_buffer_size': ebuf,
          'seed': seed, 'batches_taken': nbat, 'features': [kd[0] for kd in kinds], 'chain': descr}
 
+  form = FD_FORMS[(m + b + cbuf + ebuf) % 3]
+  wit['dataset_form'] = form
+  ctx.count('fd-form:' + form)
+
   def go():
-    fd = fedjax.InMemoryFederatedData(mapping, preprocess_batch=pre)
+    fd = make_fd(fedjax, mapping, fns, form)
     out = []
     for _ in range(2):
       out.append(
@@ -717,6 +744,8 @@ def fds_point(ctx, fedjax, cd, rng):
         ctx.check(rows_ok, 'fdstream/feature-mismatch', 'a feature row does not belong to the emitted example', wit)
     if seed is not None:
       ctx.check(same_batches(o1, o2), 'repro-fdstream/same-seed-differs', 'two streams with the same seed differ', wit)
+      if FDS_TRACE is not None and o1:
+        FDS_TRACE.append(['stream', form, seed, np.concatenate([bt['idx'] for bt in o1]).tolist()])
 
     # buffered shuffling of clients: every pass of shuffled_clients() emits every client exactly once
     def go_clients():
@@ -731,6 +760,8 @@ def fds_point(ctx, fedjax, cd, rng):
                 'a pass of shuffled_clients does not emit every client exactly once', {**wit, 'passes': passes})
       ctx.check(c1 == c2, 'repro-clients/same-seed-differs', 'shuffled_clients differs between two runs with one seed',
                 wit)
+      if FDS_TRACE is not None:
+        FDS_TRACE.append(['clients', form, 11 if seed is None else seed, [c.hex() for c in c1]])
   ctx.check([gen.digest(x) for x in raws] == digs, 'readonly/raw-mutated', 'raw client arrays changed', wit)
   ctx.case_done(('fds', b, tuple(sizes), cbuf, ebuf, seed, nbat), sample=wit,
                 klass=['fds:seed=None' if seed is None else 'fds:seeded', 'fds:seed=0' if seed == 0 else 'fds:seed!=0', 'fds:empty-client' if 0 in sizes else 'fds:no-empty'])
@@ -813,6 +844,13 @@ def run(ctx):
     if rng.rand() < 0.3:
       buf = [1, 2, n - 1, n, n + 1, n + 2][int(rng.randint(6))]
     guarded(ctx, shuffle_point, ctx, cd, rng, n, buf, BASE_KINDS[int(rng.randint(len(BASE_KINDS)))])
+  # ---- long inputs (any internal block / chunk size of the shuffler): thousands of items, sized and unsized sources
+  for cid, rng in ctx.cases('shufbig', 12 if q else 80):
+    i = int(cid.split('/')[1])
+    n = int([4097, 4200, 5000, 8193, 9000, 16500][i % 6]) + int(rng.randint(0, 3))
+    buf = int([1, 7, 100, 1000, 4096, n - 1][rng.randint(6)])
+    ctx.count('shuffle:long-input')
+    guarded(ctx, shuffle_point, ctx, cd, rng, n, buf, ['list', 'tuple', 'range', 'generator', 'iterator', 'dict'][i % 6 if i < 12 else int(rng.randint(6))])
   # ---- RepeatableIterator
   rbox = ((n, kind) for n in list(range(0, 13 if q else 41)) + [64, 200] for kind in BASE_KINDS)
   for cid, (n, kind) in ctx.enum('repeat', rbox):
@@ -835,8 +873,50 @@ def run(ctx):
     guarded(ctx, bsb_point, ctx, fedjax, cd, fd_mod, rng, b, sizes, buf)
 
   # ---- federated stream
+  global FDS_TRACE
+  traces = {}
   for cid, rng in ctx.cases('fds', 400 if q else 8000):
+    FDS_TRACE = []
     guarded(ctx, fds_point, ctx, fedjax, cd, rng)
+    traces[cid], FDS_TRACE = FDS_TRACE, None
+  if ctx.xproc_child:
+    return traces
+  # ---- "reproducibly for a fixed seed" also means: in another process. The first fds histories of this shard are replayed in
+  # a fresh interpreter under another PYTHONHASHSEED; seeded streams and shuffled client passes must be identical.
+  from vmon import xproc
+  sel = [c for c in traces if traces[c]][:40 if q else 150]
+  if sel:
+    hs = 1 + (ctx.seed + ctx.shard) % 97
+    other = xproc.run_child('vmon.checks.c15', {'tier': ctx.tier, 'seed': ctx.seed, 'cases': sel}, hs, timeout=1500)
+    for cid in sel:
+      ctx.cur_case = cid
+      mine, theirs = traces[cid], other['traces'].get(cid)
+      if theirs is None or [e[:3] for e in mine] != [e[:3] for e in theirs]:
+        raise HarnessError(f'{cid}: the fresh-interpreter replay ran a different case (harness is hash-dependent)')
+      ctx.count('hit:fresh-interpreter-stream')
+      bad = next((i for i, (a, c_) in enumerate(zip(mine, theirs)) if a != c_), None)
+      w = None
+      if bad is not None:
+        a, c_ = mine[bad], theirs[bad]
+        w = {'other_pythonhashseed': hs, 'what': a[0], 'dataset_form': a[1], 'seed': a[2], 'this_process': a[3][:40],
+             'fresh_process': c_[3][:40]}
+      ctx.check(bad is None, 'xproc/seeded-stream-differs-in-fresh-process',
+                'a seeded federated stream / shuffled client pass differs when the same program runs in a new Python process '
+                '(other PYTHONHASHSEED)', w)
+    ctx.cur_case = None
+
+
+def _xproc_child(payload):
+  from vmon.core import Ctx
+  ctx = Ctx(PROPERTY, payload['tier'], payload['seed'], 0, 1)
+  ctx.xproc_child = True
+  ctx.only_cases = set(payload['cases'])
+  return {'traces': run(ctx)}
+
+
+if __name__ == '__main__':
+  from vmon import xproc as _xproc
+  _xproc.child_main(_xproc_child)
 
 
 TECHNIQUE = ('runtime monitoring: concatenation / bucket-rule / multiset / replay checkers over unique example ids, on an '
